@@ -192,4 +192,31 @@ def run(ctx):
     w5.inst('get_origin')
     if len(go) != 1 or sq(go['get_origin']['body']) != '{self.text.origin(locate.offset)}':
         w5.fail('%s:get_origin' % API, '-', 'get_origin must look up the token\'s first byte: self.text.origin(locate.offset)')
-    return [w1, w2, w3, w4, w5]
+    # ---- W6: the file-reading function passes exactly the buffer it read to the string entry
+    w6 = RuleResult('W6', 'the file entry preprocesses exactly the bytes it read from the file')
+    nread = 0
+    for fl, mp, fn, im in sx.crate_fns(ctx.syn, 'sv-parser-pp'):
+        reads = [n for n in sx.walk(fn.get('body')) if n.get('k') == 'mcall' and n['m'] == 'read_to_string' and len(n['args']) == 1]
+        if not reads:
+            continue
+        if fn['name'] in ('testfile_contents',):
+            continue
+        nread += 1
+        buf = sq(sx.strip_ref(reads[0]['args'][0]))
+        calls = [n for n in sx.walk(fn['body']) if sx.is_call(n) and n['f']['p'].split('::')[-1] == 'preprocess_str']
+        lets = [n for n in sx.walk(fn['body']) if n.get('k') == 'let' and 'pat' in n and buf in [x for x in sx.pat_idents(n['pat']) if x]]
+        muts = [n for n in sx.walk(fn['body']) if n.get('k') == 'mcall' and sx.is_path(n['recv'], buf) and n['m'] not in ('as_str', 'len', 'is_empty', 'as_ref')]
+        w6.inst('read:%s' % fn['name'], {'fn': fn['name'], 'buffer': buf, 'bindings_of_buffer': len(lets), 'text_argument': sq(calls[0]['args'][0]) if calls else None})
+        where_ = 'sv-parser-pp/%s:%s' % (fl, fn['l'])
+        if len(calls) != 1 or sq(calls[0]['args'][0]) not in ('&' + buf, buf + '.as_str()', '&*' + buf):
+            w6.fail('sv-parser-pp:%s:text-not-buffer' % fn['name'], where_,
+                    '%s reads the file into `%s` but hands `%s` to preprocess_str: file and string entry points would disagree' %
+                    (fn['name'], buf, sq(calls[0]['args'][0]) if calls else None))
+        if len(lets) != 1:
+            w6.fail('sv-parser-pp:%s:buffer-rebound' % fn['name'], where_,
+                    '%s binds `%s` %d times: the text handed on is not (only) what was read from the file (e.g. a stripped or '
+                    'normalised copy)' % (fn['name'], buf, len(lets)))
+        if muts:
+            w6.fail('sv-parser-pp:%s:buffer-modified' % fn['name'], where_, '%s modifies the read buffer (%s) before preprocessing it' % (fn['name'], [sq(x)[:40] for x in muts]))
+    w6.floor('file_reading_functions', nread, 1)
+    return [w1, w2, w3, w4, w5, w6]
